@@ -88,7 +88,8 @@ class Fn:
         P = cxx2c.Printer(self.cname, self.types, self.calls, self.members, self.hooks, self.self_struct,
                           self.aggregates, self.stmt_hooks, self.uf_float, opaque=self.opaque, dtors=self.dtors)
         P.default_file = loc.get('file') or loc.get('expansionLoc', {}).get('file') or loc.get('spellingLoc', {}).get('file') or astload.resolve_tu(self.tu)
-        P.field_init = lambda cls, fld: astload.field_initializer(self.tu, cls, fld)
+        P.field_init = lambda cls, fld, d=d: (astload.field_initializer(self.tu, cls, fld) or
+                                               (astload.field_default_init(self.tu, d, fld) if d.get('kind') == 'CXXConstructorDecl' else None))
         extra = list(self.extra_params)
         if self.captures:
             # captured variables become parameters: by-reference captures are pointers (uses print as (*name), so writes
